@@ -146,7 +146,20 @@ def shape_flat(g, per_obs=True):
     return [y]
 
 
+def shape_weakdist(g, per_obs=True):
+    """a weak variable WITH a distribution (its evaluation node chain contains a cached calculation) and a bare Value node
+    feeding two calculations directly"""
+    a = g.var("a", dist=g.dist("Pa"), parameter=True)
+    b = g.var("b")
+    w = g.var("w", value=g.calc("f_w", a), dist=g.dist("Dw", b, per_obs=per_obs), observed=True)
+    const = g.ip.call(g.Value, [g.val("const")], {"_name": "const"})
+    c1 = g.calc("f_c1", const, name="c1")
+    c2 = g.calc("f_c2", const, c1, name="c2")
+    return [w, c2]
+
+
 SHAPES = {"hier": shape_hier, "diamond": shape_diamond, "flat": shape_flat}
+SHAPES_C01 = {**SHAPES, "weakdist": shape_weakdist}
 
 
 # ---------------------------------------------------------------------------------------------
